@@ -6,7 +6,7 @@ use libfuzzer_sys::fuzz_target;
 
 fuzz_target!(|data: &[u8]| {
     if let Ok(s) = std::str::from_utf8(data) {
-        if let Err(m) = pv::fuzzing::string_oracles(s) {
+        if let Err(m) = pv::fuzzing::string_oracles_scoped(s, pv::fuzzing::env_scope().as_deref()) {
             panic!("ORACLE {m}");
         }
     }
